@@ -424,7 +424,8 @@ func runC07(p *core.Prog, r *core.Report) {
 			construct := ld.rel + "." + ld.fn
 			n := 0
 			okAll := true
-			for _, sub := range core.WithClosures(fn) {
+			// (the loader, its closures and the helpers of its package it hands the decoding to)
+			for _, sub := range core.Family(fn, 2) {
 				for _, w := range core.FieldWritesIn(sub, f) {
 					if w.Kind != core.WAssign {
 						continue
